@@ -938,8 +938,8 @@ class Executor(Evaluator):
 
     def sum_function(self, lo, term):
         K = z3.Int("__K")
-        e = zint(term(K))
-        key = (str(lo), e.sexpr())
+        e = z3.simplify(zint(term(K)))  # canonical form: the same sum must get the same function whatever route built its term
+        key = (str(z3.simplify(zint(lo))), e.sexpr())
         if key in self.sum_funcs:
             return self.sum_funcs[key][0]
         F = z3.Function(fresh_name("sum"), INT, INT)
